@@ -34,6 +34,11 @@ fn h_ev(t: &mut Tracer, api: &str, w: usize, outl: usize, res: Option<Result<(us
     }
 }
 
+thread_local! {
+    /// the caller gives up waiting for 100-continue at once (the 100, if any, arrives late)
+    pub static GIVE_UP: std::cell::Cell<bool> = std::cell::Cell::new(false);
+}
+
 /// Drive a whole exchange against an arbitrary server byte stream delivered in the given pieces.
 pub fn drive_hostile(t: &mut Tracer, rq: RqCfg, stream: &[u8], arrivals: &[usize], outs: &[usize]) {
     let f = match guarded(|| Flow::new(rq.request())) {
@@ -94,7 +99,7 @@ pub fn drive_hostile(t: &mut Tracer, rq: RqCfg, stream: &[u8], arrivals: &[usize
             }
             FlowBox::Await100(mut f) => {
                 let w = &stream[pos..avail];
-                let keep = guarded(|| f.can_keep_await_100()).unwrap_or(false);
+                let keep = guarded(|| f.can_keep_await_100()).unwrap_or(false) && !GIVE_UP.with(|g| g.get());
                 let mut decided = !keep;
                 if keep {
                     let r = guarded(|| f.try_read_100(w)).map(|r| r.map(|n| (n, 0)).map_err(|e| format!("{:?}", e)));
@@ -169,7 +174,8 @@ pub fn drive_hostile(t: &mut Tracer, rq: RqCfg, stream: &[u8], arrivals: &[usize
                         return;
                     }
                 };
-                if got || failed || ready || (all && idle >= 2) {
+                // an interim response handed to the caller (got, not ready): the caller keeps calling try_response
+                if failed || ready || (all && idle >= 2) || (got && all && pos >= stream.len()) {
                     // advancing after whatever the server sent must not panic
                     fb = match guarded(|| f.proceed()) {
                         Some(Some(ureq_proto::client::flow::RecvResponseResult::RecvBody(x))) => {
@@ -305,11 +311,13 @@ pub fn drive_hostile(t: &mut Tracer, rq: RqCfg, stream: &[u8], arrivals: &[usize
 }
 
 fn rq_for(tag: &str) -> RqCfg {
-    let base = RqCfg { method: "GET".into(), ver10: false, expect: false, connclose: false, despite: false, framing: "default".into(), conn_other: None };
+    let base = RqCfg { method: "GET".into(), ver10: false, expect: false, connclose: false, despite: false, framing: "default".into(), conn_other: None, expect_extra: false };
     match tag {
         "head" => RqCfg { method: "HEAD".into(), ..base },
         "post-expect" => RqCfg { method: "POST".into(), expect: true, ..base },
         "post10-close-expect" => RqCfg { method: "POST".into(), ver10: true, expect: true, connclose: true, ..base },
+        "post-expect-giveup" => RqCfg { method: "POST".into(), expect: true, ..base },
+        "get10-close" => RqCfg { method: "GET".into(), ver10: true, connclose: true, ..base },
         "connect" => RqCfg { method: "CONNECT".into(), ..base },
         "put-cl" => RqCfg { method: "PUT".into(), framing: "cl2".into(), ..base },
         _ => base,
@@ -485,8 +493,10 @@ pub fn c12(o: &Opts, t: &mut Tracer) -> Value {
                 let outs: Vec<usize> = (0..3).map(|_| [0usize, 1, 2, 7, 64, 100000][rng.gen_range(0..6)]).collect();
                 let outs = if outs.iter().all(|&x| x == 0) { vec![0, 9] } else { outs };
                 // also try the exchange against other request configurations
-                let tag2 = if rep >= 2 { ["get", "head", "post-expect", "connect", "post10-close-expect", "put-cl"][rng.gen_range(0..6)] } else { tag };
+                let tag2 = if rep >= 2 { ["get", "head", "post-expect", "connect", "post10-close-expect", "put-cl", "post-expect-giveup", "get10-close"][rng.gen_range(0..8)] } else { tag };
+                GIVE_UP.with(|g| g.set(tag2 == "post-expect-giveup"));
                 drive_hostile(t, rq_for(tag2), &stream, &arrivals, &outs);
+                GIVE_UP.with(|g| g.set(false));
             }
         }
     }
